@@ -2,8 +2,8 @@
 # C13: with --follow-links the report depends on the order of the input paths / thread timing,
 # because the .gitignore rules applied inside a directory are those inherited along the route
 # that reached the directory first, and the directory is then marked as visited for all routes.
-CO=${1:-/tmp/hunt/n5}
-F=/tmp/hunt/n5/target/debug/fclones
+CO=${1:-/repo}
+F=${1:-/repo}/target/debug/fclones
 [ -x "$F" ] || F="$CO/target/debug/fclones"
 S=$(mktemp -d) || exit 2
 trap 'rm -rf "$S"' EXIT
